@@ -4,7 +4,7 @@ import numpy as np
 from harness.checklib import Check
 from harness.checks.common import family_spec
 from harness import gen
-from pygradflow.params import Params, PenaltyUpdate
+from pygradflow.params import Params, PenaltyUpdate, Precision
 from pygradflow.penalty import LagrangianPenaltyFilter, ObjectivePenaltyFilter
 from pygradflow.problem import Problem
 
@@ -45,9 +45,12 @@ def replay_edges(chk, states):
         for mi, (ma, mb) in enumerate([(MAPS[0], MAPS[0]), (MAPS[1], MAPS[2]), (MAPS[2], MAPS[1])]):
             if mi > 0 and (si % 3) != 0 and not chk.thorough:
                 continue
-            for cls in (ObjectivePenaltyFilter, LagrangianPenaltyFilter):
+            # the pairs are compared and stored as given, whatever working precision the solver was configured with:
+            # the maps with 1-ulp neighbours / denormals / 1e308 collapse under a float32 rounding (seed C18-i)
+            for cls, prec in [(c, q) for c in (ObjectivePenaltyFilter, LagrangianPenaltyFilter)
+                              for q in ((Precision.Double, Precision.Single) if mi > 0 else (Precision.Double,))]:
                 rho0 = 0.5
-                flt = cls(prob, Params(rho=rho0))
+                flt = cls(prob, Params(rho=rho0, precision=prec))
                 before = sorted((ma[a], mb[b]) for (a, b) in last["before"])
                 if (si + mi) % 2:
                     before.reverse()
@@ -60,7 +63,7 @@ def replay_edges(chk, states):
                 flt.iterate_entry = lambda it, pa=pa, pb=pb: (pa, pb)
                 res = flt.update(None, _It(pa, pb))
                 n += 1
-                chk.case(("edge", si, mi, cls.__name__))
+                chk.case(("edge", si, mi, cls.__name__, prec.name))
                 exp_entries = set((ma[a], mb[b]) for (a, b) in st["entries"])
                 exp_rho = rho_before if last["ok"] else rho_before * 10.0
                 got = [tuple(e) for e in flt.entries]
@@ -76,7 +79,7 @@ def replay_edges(chk, states):
                     problems.append("antichain")
                 if problems:
                     chk.kernel_violation(("filter.edge." + "+".join(problems), cls.__name__),
-                                         {"before": before, "pair": [pa, pb], "spec_ok": last["ok"], "got_accept": bool(res.accept),
+                                         {"precision": prec.name, "before": before, "pair": [pa, pb], "spec_ok": last["ok"], "got_accept": bool(res.accept),
                                           "got_entries": got, "spec_entries": sorted(exp_entries), "rho": [rho_before, flt.rho, exp_rho]})
     return n
 
@@ -103,8 +106,11 @@ def long_fronts(chk, n_seq, seed):
         probes = [(a + 0.5, b + 0.5) for (a, b) in chain[: N // 3]] + [(a, b) for (a, b) in chain[N // 3: N // 2]]
         sweepers = [(float(N // 4), float(N // 4)), (-1.0, float(N)), (0.0, 0.0)]
         seq = chain + probes + sweepers + [(float(rng.integers(-2, N + 2)), float(rng.integers(-2, N + 2))) for _ in range(40)]
+        if t % 2:
+            # every other sequence: coordinates that are distinct doubles but equal float32 values, filter built for Single
+            seq = [(a * (1.0 + 2.0 ** -40) + 2.0 ** -45, b * (1.0 - 2.0 ** -41) - 2.0 ** -44) for (a, b) in seq] + seq
         for cls in (ObjectivePenaltyFilter, LagrangianPenaltyFilter):
-            flt = cls(prob, Params(rho=0.5))
+            flt = cls(prob, Params(rho=0.5, precision=Precision.Single if t % 2 else Precision.Double))
             cur = {"p": None}
             flt.iterate_entry = lambda it: cur["p"]
             flt.initial(_It(0.0, 0.0)) if hasattr(flt, "initial") else None
